@@ -1,7 +1,8 @@
 // models/C15_tol.hpp -- tolerance schedule of the C15 harness, in units of eps = 2^-52 (DESIGN.md Appendix B).
 // "documented x 2" where the documentation gives a figure; otherwise calibrated once to 4 x the worst error observed on
 // the unchanged tree (floor 16 eps) and frozen.  Tolerances are scheduled per REGIME (ellipsoid: small |f| <= 1/150,
-// moderate b/a in {1/2, 2}, extreme b/a in {0.01, 100}; elliptic parameters / Carlson arguments: moderate, extreme) so that
+// moderate b/a in {1/2, 2}, extreme b/a in {0.01, 100}; elliptic parameters: moderate, alpha2-large-negative, alpha2-near-one,
+// extreme, tiny-complement, kp2-below-1e-100; Carlson arguments: compact, spread, extreme -- defined in props/C15.cpp) so that
 // the bound used for terrestrial ellipsoids and ordinary parameters is not diluted by the corners of the lattices.
 // The observed worst values are reported in evidence/C15.json (worst{}), as observed/tolerance.
 #pragma once
@@ -9,7 +10,105 @@
 #include <cstring>
 struct C15TolRow { const char* pred; const char* regime; double eps; };
 static const C15TolRow C15_TOL[] = {
-  // predicate                 regime      tolerance/eps     observed worst/eps on the unchanged tree
+  // predicate, regime, tolerance/eps            // worst observed on the unchanged tree (thorough tier), in eps
+  {"aux.degrees.exact", "extreme", 2048},                                // observed 467 eps
+  {"aux.degrees.exact", "moderate", 32},                                 // observed 4.53 eps
+  {"aux.degrees.exact", "small", 16},                                    // observed 3.85 eps
+  {"aux.degrees.series", "small", 16},                                   // observed 3.97 eps
+  {"aux.exact.closed", "extreme", 16},                                   // observed 0.564 eps
+  {"aux.exact.closed", "moderate", 16},                                  // observed 0 eps
+  {"aux.exact.closed", "small", 16},                                     // observed 0.79 eps
+  {"aux.exact.newton", "extreme", 8192},                                 // observed 2.01e+03 eps
+  {"aux.exact.newton", "moderate", 16},                                  // observed 3.95 eps
+  {"aux.exact.newton", "small", 16},                                     // observed 2.8 eps
+  {"aux.radii", "*", 16},                                                // observed 1.06 eps
+  {"aux.roundtrip", "extreme", 16384},                                   // observed 3.05e+03 eps
+  {"aux.roundtrip", "moderate", 16},                                     // observed 2.5 eps
+  {"aux.roundtrip", "small", 16},                                        // observed 1.88 eps
+  {"aux.series", "small", 16},                                           // observed 3.49 eps
+  {"aux.series_vs_exact", "small", 16},                                  // observed 3.65 eps
+  {"carlson.RC", "compact", 16},                                         // observed 0.601 eps
+  {"carlson.RC", "extreme", 16},                                         // observed 0.757 eps
+  {"carlson.RC", "spread", 16},                                          // observed 0.469 eps
+  {"carlson.RD", "compact", 16},                                         // observed 1.07 eps
+  {"carlson.RD", "extreme", 16},                                         // observed 2.01 eps
+  {"carlson.RD", "spread", 16},                                          // observed 3.21 eps
+  {"carlson.RF", "compact", 16},                                         // observed 0.601 eps
+  {"carlson.RF", "extreme", 16},                                         // observed 1.61 eps
+  {"carlson.RF", "spread", 16},                                          // observed 2.34 eps
+  {"carlson.RF2", "compact", 16},                                        // observed 0.601 eps
+  {"carlson.RF2", "extreme", 16},                                        // observed 1.62 eps
+  {"carlson.RF2", "spread", 16},                                         // observed 0.719 eps
+  {"carlson.RG", "compact", 16},                                         // observed 1.19 eps
+  {"carlson.RG", "extreme", 512},                                        // observed 114 eps
+  {"carlson.RG", "spread", 16},                                          // observed 2.21 eps
+  {"carlson.RG2", "compact", 16},                                        // observed 1.19 eps
+  {"carlson.RG2", "extreme", 512},                                       // observed 114 eps
+  {"carlson.RG2", "spread", 16},                                         // observed 1.69 eps
+  {"carlson.RJ", "compact", 16},                                         // observed 1.69 eps
+  {"carlson.RJ", "extreme", 16},                                         // observed 2.3 eps
+  {"carlson.RJ", "spread", 32},                                          // observed 4.03 eps
+  {"ellint.D", "alpha2-large-negative", 16},                             // observed 1.11 eps
+  {"ellint.D", "alpha2-near-one", 16},                                   // observed 1.11 eps
+  {"ellint.D", "extreme", 16},                                           // observed 2.52 eps
+  {"ellint.D", "kp2-below-1e-100", 16},                                  // observed 1.59 eps
+  {"ellint.D", "moderate", 16},                                          // observed 2.94 eps
+  {"ellint.D", "tiny-complement", 16},                                   // observed 3.48 eps
+  {"ellint.E", "alpha2-large-negative", 16},                             // observed 3.81 eps
+  {"ellint.E", "alpha2-near-one", 16},                                   // observed 3.81 eps
+  {"ellint.E", "extreme", 32},                                           // observed 7.32 eps
+  {"ellint.E", "kp2-below-1e-100", 512},                                 // observed 85 eps
+  {"ellint.E", "moderate", 32},                                          // observed 4.51 eps
+  {"ellint.E", "tiny-complement", 16},                                   // observed 2.02 eps
+  {"ellint.Ed", "extreme", 32},                                          // observed 4.3 eps
+  {"ellint.Ed", "kp2-below-1e-100", 256},                                // observed 46.4 eps
+  {"ellint.Ed", "moderate", 16},                                         // observed 2.06 eps
+  {"ellint.Ed", "tiny-complement", 16},                                  // observed 1.75 eps
+  {"ellint.Einv", "extreme", 64},                                        // observed 8.65 eps
+  {"ellint.Einv", "kp2-below-1e-100", 64},                          // known finding (Newton divergence); other arguments observed <= 8 eps
+  {"ellint.Einv", "moderate", 16},                                       // observed 2.64 eps
+  {"ellint.Einv", "tiny-complement", 16},                                // observed 2.65 eps
+  {"ellint.F", "alpha2-large-negative", 16},                             // observed 0.642 eps
+  {"ellint.F", "alpha2-near-one", 16},                                   // observed 0.642 eps
+  {"ellint.F", "extreme", 16},                                           // observed 0.799 eps
+  {"ellint.F", "kp2-below-1e-100", 16},                                  // observed 0.421 eps
+  {"ellint.F", "moderate", 16},                                          // observed 2.38 eps
+  {"ellint.F", "tiny-complement", 16},                                   // observed 1.18 eps
+  {"ellint.G", "alpha2-large-negative", 16384},                          // observed 2.93e+03 eps
+  {"ellint.G", "alpha2-near-one", 131072},                               // observed 3.11e+04 eps
+  {"ellint.G", "extreme", 256},                                          // observed 56.9 eps
+  {"ellint.G", "kp2-below-1e-100", 512},                                 // observed 85 eps
+  {"ellint.G", "moderate", 64},                                          // observed 12.3 eps
+  {"ellint.G", "tiny-complement", 256},                                  // observed 34 eps
+  {"ellint.H", "alpha2-large-negative", 16384},                          // observed 2.56e+03 eps
+  {"ellint.H", "alpha2-near-one", 131072},                               // observed 3.11e+04 eps
+  {"ellint.H", "extreme", 256},                                          // observed 45.1 eps
+  {"ellint.H", "kp2-below-1e-100", 128},                                 // observed 32 eps
+  {"ellint.H", "moderate", 64},                                          // observed 9.09 eps
+  {"ellint.H", "tiny-complement", 128},                                  // observed 29 eps
+  {"ellint.Pi", "alpha2-large-negative", 16384},                         // observed 2.53e+03 eps
+  {"ellint.Pi", "alpha2-near-one", 131072},                              // observed 1.84e+04 eps
+  {"ellint.Pi", "extreme", 16},                                          // observed 2.88 eps
+  {"ellint.Pi", "kp2-below-1e-100", 16},                                 // observed 0.421 eps
+  {"ellint.Pi", "moderate", 16},                                         // observed 2.66 eps
+  {"ellint.Pi", "tiny-complement", 16},                                  // observed 1.18 eps
+  {"ellipsoid.crossclass", "extreme", 16},                               // observed 1.1 eps
+  {"ellipsoid.crossclass", "moderate", 32},                              // observed 4.31 eps
+  {"ellipsoid.crossclass", "small", 16},                                 // observed 1.95 eps
+  {"ellipsoid.curvature", "extreme", 16},                                // observed 1.57 eps
+  {"ellipsoid.curvature", "moderate", 16},                               // observed 1.83 eps
+  {"ellipsoid.curvature", "small", 16},                                  // observed 2.66 eps
+  {"ellipsoid.latitude", "extreme", 1024},                               // observed 241 eps
+  {"ellipsoid.latitude", "moderate", 16},                                // observed 2.56 eps
+  {"ellipsoid.latitude", "small", 16},                                   // observed 2.25 eps
+  {"ellipsoid.measure", "extreme", 2048},                                // observed 504 eps
+  {"ellipsoid.measure", "moderate", 16},                                 // observed 1.71 eps
+  {"ellipsoid.measure", "small", 16},                                    // observed 2.25 eps
+  {"ellipsoid.shape", "*", 16},                                          // observed 0.533 eps
+  {"jacobi", "extreme", 256},                                            // observed 51.9 eps
+  {"jacobi", "kp2-below-1e-100", 64},                                 // known finding (am inaccurate for tiny k'); sncndn observed <= 1 eps
+  {"jacobi", "moderate", 16},                                            // observed 0.824 eps
+  {"jacobi", "tiny-complement", 32768},                                  // observed 7.6e+03 eps
   {"*", "*", 64},
 };
 inline double C15tol(const std::string& pred, const std::string& regime) {
